@@ -251,6 +251,13 @@ def analyse_tree(tree: ast.Module, relpath: str):
                     hit_branch = n.body if isinstance(n.test.ops[0], ast.IsNot) else n.orelse
                     if any(isinstance(r_, ast.Return) and r_.value is not None and f"self.{attr}" in src(r_.value) for b_ in hit_branch for r_ in ast.walk(b_)):
                         slot_guards[attr] = n
+                    elif isinstance(n.test.ops[0], ast.Is) and not n.orelse and \
+                            any(isinstance(a_, ast.Assign) and any(isinstance(t_, ast.Attribute) and t_.attr == attr and isinstance(t_.value, ast.Name) and
+                                                                    t_.value.id == "self" for t_ in a_.targets) for b_ in n.body for a_ in ast.walk(b_)) and \
+                            any(isinstance(r_, ast.Return) and r_.value is not None and f"self.{attr}" in src(r_.value) and r_.lineno > n.lineno
+                                for r_ in ast.walk(fn)):
+                        # fill-once form:  if self.A is None: self.A = E   ...   return self.A
+                        slot_guards[attr] = n
             for attr, gnode in slot_guards.items():
                 sstores = [a_ for a_ in ast.walk(fn) if isinstance(a_, ast.Assign) and len(a_.targets) == 1 and isinstance(a_.targets[0], ast.Attribute) and
                            isinstance(a_.targets[0].value, ast.Name) and a_.targets[0].value.id == "self" and a_.targets[0].attr == attr]
